@@ -7,7 +7,9 @@
 
      observables (a mismatch is a property violation)
        Read    every trie of every block version: a retained block reads exactly its logical content (through Get
-               and through the NodeIterator); any other block fails or reads its content, never something else
+               and through the NodeIterator, through fresh tries of the live MuxDB, of a cache-less MuxDB, and through
+               trie objects a reader has kept since an earlier step); any other block fails or reads its content,
+               never something else (a kept trie object of a block pruned meanwhile is not constrained)
        Commit  the root hash is the canonical commitment of the content (hashok, computed by the driver against a
                trie built from scratch), the version is the one the design assigns
        CheckpointError never happens on an admissible prune round
@@ -74,7 +76,9 @@ ReadOK(r) ==
        /\ b \in vers
        /\ r.itersame = TRUE
        /\ Retained(b) => obs = Logical(b)
-       /\ (~Retained(b) /\ Owed(b)) => (StateErr(obs) \/ obs = Logical(b))
+       \* a reader that kept its trie object from before the prune (how = "held") is in the position of the root cache:
+       \* it is owed the content only while its block is retained (RootCacheRecent is the matching assumption)
+       /\ (~Retained(b) /\ Owed(b) /\ Get(r, "how", "live") # "held") => (StateErr(obs) \/ obs = Logical(b))
        /\ (CheckProjection /\ r.cold) => obs = ReadState(b, FALSE)
 KeysOK(e) ==
   CheckProjection =>
